@@ -232,6 +232,8 @@ foreign_impl!(ForeignWindow<'a, T>, 'a);
 macro_rules! with_recv {
     ($parent:expr, $rd:expr, |$r:ident| $body:block) => {{
         use $crate::props::recv::{ForeignOwned, ForeignWindow, RK};
+        #[allow(unused_imports)]
+        use toodee::{TooDeeOps as _, TooDeeOpsMut as _};
         match $rd.kind {
             RK::Owned => {
                 let $r = &mut $parent;
